@@ -178,8 +178,40 @@ def nslots(template):
     return len(SLOT.findall(template))
 
 
+_WORD = re.compile(r'[A-Za-z][A-Za-z0-9]*')
+
+
+def context(text):
+    """the part of PRE / POST that `text` refers to (parsing is per line and
+    slow, so unreferenced declarations are left out)"""
+    words = set(w.lower() for w in _WORD.findall(text))
+    pre, post = '', ''
+    if words & {'pt', 'rec', 'r2'}:
+        pre += 'TYPE pt\n  px AS INTEGER\n  py AS LONG\nEND TYPE\n'
+    if 'rec' in words:
+        pre += 'DIM rec AS pt\n'
+    if 'r2' in words:
+        pre += 'DIM r2 AS pt\n'
+    if 'arr' in words:
+        pre += 'DIM arr(3) AS INTEGER\n'
+    if 'here' in words:
+        pre += 'here: DATA 1, 2, "a"\n'
+    if words & {'s0', 's1', 's2', 'f1'}:
+        post += '\nEND\n'
+    if 's0' in words:
+        post += 'SUB s0\nEND SUB\n'
+    if 's1' in words:
+        post += 'SUB s1 (a%)\nEND SUB\n'
+    if 's2' in words:
+        post += 'SUB s2 (a%())\nEND SUB\n'
+    if 'f1' in words:
+        post += 'FUNCTION f1% (a%)\nf1% = a%\nEND FUNCTION\n'
+    return pre, (post if post else '\n')
+
+
 def wrap(pre, body, post):
-    return PRE + pre + body + post + POST
+    a, b = context(pre + body + post)
+    return a + pre + body + post + b
 
 
 def statement_forms():
@@ -283,7 +315,7 @@ def form_token_mutations():
             if m[0] == 'rep':
                 continue
             out.append({'fam': 'form-token', 'cls': f'{name}/{m[0]}',
-                        'src': PRE + apply_mutation(toks, m) + POST})
+                        'src': wrap('', apply_mutation(toks, m), '')})
     return out
 
 
@@ -312,6 +344,39 @@ def block_keywords(maxlen):
             out.append({'fam': f'block{n}', 'cls': names, 'src': '\n'.join(lines) + '\n'})
             if n == 2:
                 out.append({'fam': 'block2-colon', 'cls': names, 'src': ' : '.join(lines)})
+    return out
+
+
+SKELETONS = [
+    ('if', ['IF x THEN', 'y = 1', 'ELSEIF z THEN', 'y = 2', 'ELSE', 'y = 3', 'END IF']),
+    ('select', ['SELECT CASE x', 'CASE 1', 'y = 1', 'CASE 2 TO 3', 'CASE ELSE', 'y = 2', 'END SELECT']),
+    ('for', ['FOR i = 1 TO 2', 'y = 1', 'EXIT FOR', 'NEXT i']),
+    ('do', ['DO', 'y = 1', 'EXIT DO', 'LOOP']),
+    ('while', ['WHILE x', 'y = 1', 'WEND']),
+    ('sub', ['SUB sq (a%)', 'y = 1', 'EXIT SUB', 'END SUB']),
+    ('function', ['FUNCTION fq% (a%)', 'fq% = 1', 'EXIT FUNCTION', 'END FUNCTION']),
+    ('type', ['TYPE tq', 'fa AS INTEGER', 'fb AS STRING', 'END TYPE']),
+    ('nested', ['FOR i = 1 TO 2', 'IF x THEN', 'DO', 'LOOP', 'END IF', 'NEXT']),
+    ('if-in-sub', ['SUB sq', 'IF x THEN', 'ELSE', 'END IF', 'END SUB']),
+]
+
+
+def block_skeletons():
+    """every valid block with one line deleted / duplicated / swapped with
+    its successor / one block keyword line inserted at any position"""
+    out = []
+    for name, lines in SKELETONS:
+        def emit(kind, ls):
+            out.append({'fam': 'block-skel', 'cls': f'{name}/{kind}', 'src': '\n'.join(ls) + '\n'})
+        emit('valid', lines)
+        for i in range(len(lines)):
+            emit('del', lines[:i] + lines[i + 1:])
+            emit('dup', lines[:i] + [lines[i]] + lines[i:])
+            if i + 1 < len(lines):
+                emit('swap', lines[:i] + [lines[i + 1], lines[i]] + lines[i + 2:])
+        for i in range(len(lines) + 1):
+            for kn, kw in BLOCK_KW:
+                emit('ins-' + kn, lines[:i] + [kw] + lines[i:])
     return out
 
 
@@ -346,7 +411,7 @@ def expressions():
 
     def add(cls, e, ctxs=EXPR_CTX):
         for cn, ct in ctxs:
-            out.append({'fam': 'expr', 'cls': f'{cls}/{cn}', 'src': EPRE + ct.format(e) + EPOST})
+            out.append({'fam': 'expr', 'cls': f'{cls}/{cn}', 'src': wrap('', ct.format(e), '')})
     main_ctx = EXPR_CTX[:6]
     # every operand alone in every context (string / record / array as a condition ...)
     for an, a in OPERANDS:
@@ -381,9 +446,13 @@ def expressions():
         add(f'paren-unbalanced/{d}', '(' * d + '1' + ')' * (d - 1), main_ctx[:1])
         add(f'index-nest/{d}', 'arr(' * d + '1' + ')' * d, main_ctx[:1])
         add(f'fn-nest/{d}', 'ABS(' * d + '1' + ')' * d, main_ctx[:1])
-        add(f'neg-nest/{d}', '-' * d + '1', main_ctx[:1])
-        add(f'not-nest/{d}', 'NOT ' * d + '1', main_ctx[:1])
-        add(f'exp-chain/{d}', ' ^ '.join(['2'] * (d + 1)), main_ctx[:1])
+        if d <= 12 or d in (16, 20, 30, 40):
+            # (parse time of a sign chain and the value of a power tower grow
+            # exponentially: the deep ones run into the time limit)
+            add(f'neg-nest/{d}', '-' * d + '1', main_ctx[:1])
+            add(f'not-nest/{d}', 'NOT ' * d + '1', main_ctx[:1])
+            add(f'exp-chain/{d}', ' ^ '.join(['2'] * (d + 1)), main_ctx[:1])
+            add(f'exp-chain-var/{d}', ' ^ '.join(['a%'] * (d + 1)), main_ctx[:1])
     # long lines
     for n in (50, 200, 1000, 4000):
         add(f'long-sum/{n}', ' + '.join(['1'] * n), main_ctx[:1])
@@ -409,6 +478,110 @@ def expressions():
         out.append({'fam': 'expr', 'cls': f'many-args/{n}',
                     'src': 'CALL sz(' + ', '.join(['1'] * min(n, 300)) + ')\nSUB sz(' +
                            ', '.join(f'p{i}%' for i in range(min(n, 300))) + ')\nEND SUB'})
+    # lengths around the 16-bit fields of the module format (D30)
+    for n in (33000, 66000):
+        out.append({'fam': 'expr', 'cls': f'field16/string/{n}', 'src': 'PRINT "' + 'a' * n + '"'})
+        out.append({'fam': 'expr', 'cls': f'field16/data/{n}', 'src': 'DATA ' + 'a' * n})
+        out.append({'fam': 'expr', 'cls': f'field16/data-quoted/{n}', 'src': 'DATA "' + 'a' * n + '"'})
+        out.append({'fam': 'expr', 'cls': f'field16/data-items/{n}', 'src': 'DATA ' + ','.join(['1'] * (n // 2))})
+        out.append({'fam': 'expr', 'cls': f'field16/comment/{n}', 'src': "x = 1 ' " + 'c' * n})
+    # degenerate texts
+    misc = ['', ' ', '\n', '\n\n\n', ':', '::', "'", 'REM', 'x:', '10', '10 20', '10:', 'x = 1 :',
+            ': x = 1', 'x = 1 ::: y = 2', '\t x = 1', 'x = 1\n\n\ny = 2\n', 'x =', '= 1', '(', ')', '"',
+            '"abc', 'PRINT "abc', 'DATA "abc', 'x = 1 \' "', '?', 'PRINT ?', '? 1', '#', '1x = 2',
+            'x%% = 1', 'x$% = 1', 'a.b.c = 1', 'a..b = 1', '.a = 1', 'a. = 1', 'x(1)(2) = 3',
+            'x() = 1', 'x(,) = 1', 'x(1,) = 1', 'x = y()', 'x = y(,)', 'x = ()', 'x = (,)', 'x = 1,',
+            'x, y = 1', 'x = 1 2', 'x = = 1', 'x == 1', 'x = 1 =', 'x = <> 1', 'x = 1 <', 'LET', 'LET x',
+            'LET = 1', 'PRINT ;', 'PRINT ,', 'PRINT ;;', 'PRINT 1 2', 'PRINT USING', 'PRINT USING "#"',
+            'PRINT USING "#";', 'PRINT USING ; 1', 'INPUT', 'INPUT ;', 'INPUT "a"', 'INPUT "a";',
+            'INPUT x y', 'INPUT 1', 'INPUT "a" x', 'DIM', 'DIM x(', 'DIM x()', 'DIM x AS', 'DIM AS INTEGER',
+            'DIM x(1 TO)', 'DIM x(TO 1)', 'DIM SHARED', 'CONST', 'CONST x', 'CONST x =', 'CONST = 1',
+            'CONST x = y', 'CONST x = x', 'CONST x = 1\nCONST x = 2', 'CONST x = 1\nx = 2',
+            'x = 1\nCONST x = 2', 'CONST x% = 1.5', 'CONST x$ = 1', 'CONST x% = "a"', 'CONST x = 1\nPRINT x(1)',
+            'CONST x = 1\nPRINT x.y', 'GOTO', 'GOSUB', 'RETURN 1 2', 'ON', 'ON ERROR', 'ON ERROR GOTO',
+            'ON ERROR RESUME', 'ON x GOTO 1', 'DEF', 'DEF SEG =', 'DEF FNa(x) = 1', 'DEFINT', 'DEFINT A-',
+            'DEFINT 1', 'DEFINT Z-A', 'DEFINT A-Z, B', 'DEFINT AA', 'TYPE', 'TYPE t\nEND TYPE',
+            'TYPE t\nx AS t\nEND TYPE', 'TYPE t\nx AS INTEGER\nx AS LONG\nEND TYPE',
+            'TYPE t\nx AS INTEGER\nEND TYPE\nTYPE t\ny AS LONG\nEND TYPE',
+            'TYPE t\nx(3) AS INTEGER\nEND TYPE', 'TYPE t\nx AS STRING * 5\nEND TYPE',
+            'TYPE t\nx AS INTEGER\nEND TYPE\nDIM t AS t', 'TYPE integer\nx AS INTEGER\nEND TYPE',
+            'DIM a AS t', 'DIM a(3) AS t', 'DIM a AS INTEGER\nDIM a AS LONG', 'DIM a\nDIM a(3)',
+            'a(1) = 1\nDIM a(3)', 'a = 1\nDIM a', 'DIM a(3)\na = 1', 'DIM a(3)\na(1, 2) = 1',
+            'DIM a(3, 3)\na(1) = 1', 'DIM a()', 'DIM a(-1)', 'DIM a(5 TO 1)', 'DIM a(x)', 'DIM a(x)\na(1) = 2',
+            'DIM a(1.5)', 'DIM a("a")', 'DIM a(3) AS STRING\na(1) = 1', 'DIM s AS STRING\ns = 1',
+            'SUB', 'SUB s(', 'SUB s()', 'SUB s(a, a)\nEND SUB', 'SUB s\nSUB t\nEND SUB\nEND SUB',
+            'SUB s\nEND SUB\nSUB s\nEND SUB', 'SUB s\nEND FUNCTION', 'FUNCTION f\nEND SUB',
+            'SUB s\ns\nEND SUB', 'FUNCTION f\nf = f\nEND FUNCTION', 'FUNCTION f$\nf$ = 1\nEND FUNCTION',
+            'FUNCTION f%\nf% = "a"\nEND FUNCTION', 'FUNCTION f\nf$ = "a"\nEND FUNCTION',
+            'FUNCTION f(a)\nEND FUNCTION\nx = f', 'FUNCTION f(a)\nEND FUNCTION\nx = f(1, 2)',
+            'FUNCTION f(a)\nEND FUNCTION\nf = 1', 'FUNCTION f(a)\nEND FUNCTION\nf(1) = 1',
+            'FUNCTION f(a)\nEND FUNCTION\nCALL f(1)', 'SUB s(a)\nEND SUB\nx = s(1)',
+            'SUB s(a)\nEND SUB\ns = 1', 'SUB s(a)\nEND SUB\nDIM s', 'SUB s(a AS t)\nEND SUB',
+            'SUB s(a() AS INTEGER)\na(1) = 1\nEND SUB\nDIM b(3) AS INTEGER\ns b()',
+            'SUB s(a() AS INTEGER)\nEND SUB\nDIM b(3) AS LONG\ns b()', 'SUB s(a())\nEND SUB\ns 1',
+            'SUB s(a)\nEND SUB\nDIM b(3)\ns b', 'SUB s(a)\nEND SUB\nDIM b(3)\ns b()',
+            'SUB s(a$)\nEND SUB\ns 1', 'SUB s(a%)\nEND SUB\ns "a"', 'SUB s(a%)\nEND SUB\ns b&',
+            'SUB s(a%)\nEND SUB\ns (b&)', 'SUB s(a%)\nEND SUB\nCALL s', 'SUB s(a%)\nEND SUB\nCALL s()',
+            'SUB s\nEND SUB\nCALL s(1)', 'CALL nowhere', 'nowhere 1', 'nowhere', 'x = nowhere(1)',
+            'DECLARE', 'DECLARE SUB', 'DECLARE SUB s (a%)\ns 1', 'DECLARE FUNCTION f% (a%)\nx = f%(1)',
+            'DECLARE SUB s\nSUB s(a)\nEND SUB', 'SUB s\nSHARED x\nEND SUB', 'SUB s\nDIM SHARED x\nEND SUB',
+            'STATIC x', 'SUB s\nSTATIC x\nSTATIC x\nEND SUB', 'SUB s\nx: y = 1\nGOTO x\nEND SUB\nx: y = 2',
+            'SUB s\nDATA 1\nEND SUB', 'SUB s\nTYPE t\nx AS INTEGER\nEND TYPE\nEND SUB',
+            'SUB s\nCONST k = 1\nPRINT k\nEND SUB\nPRINT k', 'SUB s\nEND\nEND SUB', 'SUB s\nRETURN\nEND SUB',
+            'SUB s\nON ERROR GOTO 0\nEND SUB', 'SUB s\nRESUME\nEND SUB', 'EXIT', 'EXIT IF', 'EXIT WHILE',
+            'EXIT SELECT', 'END x', 'END WHILE', 'END FOR', 'END DO', 'NEXT x, y', 'NEXT 1', 'NEXT x y',
+            'FOR i = 1 TO 2\nNEXT j', 'FOR i = 1 TO 2\nFOR j = 1 TO 2\nNEXT i, j',
+            'FOR i = 1 TO 2\nFOR j = 1 TO 2\nNEXT j, i, k', 'FOR i = 1 TO 2: NEXT', 'FOR i = 1 TO 2: NEXT: NEXT',
+            'FOR i$ = 1 TO 2\nNEXT', 'FOR i = "a" TO 2\nNEXT', 'FOR i = 1 TO 2 STEP "a"\nNEXT',
+            'FOR i = 1 TO 2 STEP 0\nNEXT', 'FOR a(1) = 1 TO 2\nNEXT', 'FOR r.x = 1 TO 2\nNEXT',
+            'CONST k = 1\nFOR k = 1 TO 2\nNEXT', 'DIM arr(3)\nFOR arr = 1 TO 2\nNEXT',
+            'IF THEN', 'IF x', 'IF x THEN ELSE', 'IF x THEN 10', 'IF x THEN 10 ELSE 20', 'IF x GOTO 10',
+            'IF x THEN : ELSE :', 'IF x THEN IF y THEN z = 1 ELSE z = 2 ELSE z = 3',
+            'IF x THEN y = 1: z = 2 ELSE w = 3: v = 4', "IF x THEN y = 1 ' c", 'IF x THEN REM', 'IF x THEN END IF',
+            'IF x THEN FOR i = 1 TO 2', 'IF x THEN NEXT', 'IF x THEN\nELSEIF\nEND IF', 'IF x THEN\nELSE y = 1\nEND IF',
+            'IF x THEN\nELSEIF y THEN z = 1\nEND IF', 'IF x THEN\nEND IF y', 'IF x THEN y = 1 END IF',
+            'IF x THEN SUB s', 'IF x THEN DATA 1', 'IF x THEN DIM a(3)', 'IF x THEN CONST k = 1',
+            'IF x THEN lbl: y = 1', 'IF x THEN 10 y = 1', 'SELECT', 'SELECT x', 'SELECT CASE', 'CASE',
+            'SELECT CASE x\nEND SELECT', 'SELECT CASE x\nCASE\nEND SELECT', 'SELECT CASE x\nCASE ELSE\nEND SELECT',
+            'SELECT CASE x\nCASE 1 TO\nEND SELECT', 'SELECT CASE x\nCASE IS\nEND SELECT',
+            'SELECT CASE x\nCASE IS 1\nEND SELECT', 'SELECT CASE x\nCASE IS > \nEND SELECT',
+            'SELECT CASE x\nCASE ELSE\nCASE 1\nEND SELECT', 'SELECT CASE x\nCASE ELSE\nCASE ELSE\nEND SELECT',
+            'SELECT CASE x\nCASE "a"\nEND SELECT', 'SELECT CASE x$\nCASE 1\nEND SELECT',
+            'SELECT CASE x$\nCASE "a" TO "b"\nCASE IS > "c"\nEND SELECT', 'SELECT CASE rec\nCASE 1\nEND SELECT',
+            'SELECT CASE arr\nCASE 1\nEND SELECT', 'SELECT CASE x\nCASE rec\nEND SELECT',
+            'SELECT CASE x\nCASE arr\nEND SELECT', 'SELECT CASE x\nCASE 1 TO rec\nEND SELECT',
+            'SELECT CASE x\nCASE IS > arr\nEND SELECT', 'SELECT CASE x: CASE 1: y = 1: END SELECT',
+            'WHILE', 'WHILE x: WEND', 'WEND x', 'DO WHILE', 'DO x', 'DO WHILE x\nLOOP UNTIL y', 'LOOP WHILE',
+            'DO: LOOP', 'DO\nLOOP x', 'DO UNTIL rec\nLOOP', 'DO\nLOOP WHILE rec', 'WHILE rec\nWEND',
+            'IF rec THEN x = 1', 'IF rec THEN\nEND IF', 'IF arr THEN x = 1', 'IF x$ THEN\nEND IF',
+            'IF 0 THEN\nELSEIF rec THEN\nEND IF', 'IF 0 THEN\nELSEIF x$ THEN\nEND IF',
+            'x = rec', 'rec = 1', 'rec = "a"', 'rec = arr', 'arr = rec', 'arr = 1', 'arr = arr', 'x = arr',
+            'x$ = rec', 'rec.px = rec', 'rec.px = "a"', 'rec.px.z = 1', 'rec.nope = 1', 'x = rec.nope',
+            'rec(1) = 1', 'rec(1).px = 1', 'arr.px = 1', 'arr(1).px = 1', 'arr(rec) = 1', 'arr("a") = 1',
+            'arr(1, 2) = 1', 'arr() = 1', 'x = arr()', 'PRINT rec', 'PRINT arr', 'PRINT arr()', 'PRINT rec.nope',
+            'PRINT USING rec; 1', 'PRINT USING "#"; rec', 'PRINT USING 1; 1', 'INPUT rec', 'INPUT arr', 'INPUT rec.px',
+            'INPUT arr(1)', 'INPUT "a", rec', 'READ rec.px, arr(1)', 'SWAP x, y', 'ERASE arr', 'REDIM arr(5)',
+            'OPTION BASE 1', 'LINE INPUT x$', 'LPRINT 1', 'OPEN "f" FOR INPUT AS #1', 'CLOSE', 'WRITE 1',
+            'GET #1', 'PUT #1', 'CHAIN "f"', 'RUN', 'STOP', 'SLEEP 1', 'CLEAR', 'SHELL "ls"', 'ERROR 5',
+            'MID$(x$, 1) = "a"', 'x = ERL', 'x = ERR', 'x = FRE(0)', 'x = POS(0)', 'x = CSRLIN', 'x$ = DATE$',
+            'x$ = TIME$', 'x = SGN(1)', 'x = SQR(4)', 'x = SIN(1)', 'x$ = HEX$(1)', 'x = FIX(1.5)', 'x = CDBL(1)',
+            'x = CSNG(1)', 'x$ = INPUT$(1)', 'x = EOF(1)', 'x = LOF(1)', 'x = VARPTR(x)', 'x = INP(1)',
+            'OUT 1, 2', 'WAIT 1, 2', 'PSET (1, 2)', 'LINE (1, 2)-(3, 4)', 'CIRCLE (1, 2), 3', 'PAINT (1, 2)',
+            'DRAW "u1"', 'PALETTE 1, 2', 'PCOPY 1, 2', 'KEY OFF', 'VIEW', 'WINDOW', 'SEEK #1, 2', 'FIELD #1, 2 AS x$',
+            'LSET x$ = "a"', 'RSET x$ = "a"', 'NAME "a" AS "b"', 'MKDIR "a"', 'RMDIR "a"', 'CHDIR "a"', 'FILES',
+            'RESET', 'SYSTEM 1', 'END 1', 'TRON', 'TROFF', 'COMMON x', 'ENVIRON "a"', 'IOCTL #1, "a"',
+            'LOCK #1', 'UNLOCK #1', 'PEN ON', 'STRIG ON', 'COM(1) ON', 'TIMER ON', 'ON TIMER(1) GOSUB 10',
+            'ON KEY(1) GOSUB 10', 'KEY 1, "a"', 'BEEP 1', 'CLS 1', 'RANDOMIZE', 'RANDOMIZE TIMER', 'RESTORE 1.5',
+            'RESUME 10', 'RESUME x', 'VIEW PRINT 1', 'VIEW PRINT 1 TO', 'VIEW PRINT "a" TO 2', 'VIEW PRINT rec TO 2',
+            'WIDTH "a"', 'WIDTH rec', 'SCREEN "a"', 'SCREEN rec', 'SCREEN 0, "a"', 'SCREEN 0, 0, rec',
+            'POKE rec, 1', 'POKE 1, rec', 'POKE "a", 1', 'SOUND rec, 1', 'SOUND 1, "a"', 'PLAY 1', 'PLAY rec',
+            'PLAY arr', 'KILL 1', 'KILL rec', 'BLOAD 1, 2', 'BLOAD rec, 1', 'BLOAD "a", "b"', 'BLOAD "a", rec',
+            'BSAVE 1, 2, 3', 'BSAVE "a", "b", 3', 'BSAVE "a", 1, "c"', 'BSAVE rec, 1, 2', 'RANDOMIZE "a"',
+            'RANDOMIZE rec', 'DEF SEG = rec', 'DEF SEG = "a"', 'COLOR rec', 'COLOR , rec', 'COLOR , , rec',
+            'LOCATE rec', 'LOCATE , rec', 'LOCATE , , rec', 'LOCATE , , , rec', 'LOCATE , , , , rec',
+            'LOCATE , , , "a"', 'LOCATE , , , , "a"', 'LOCATE 1, 2, 3, 4', 'LOCATE , , , 4', 'LOCATE , , , , 5']
+    for i, m in enumerate(misc):
+        out.append({'fam': 'expr', 'cls': f'misc/{i}', 'src': wrap('', m, '') if m.strip() else m})
     # literals at and beyond the type limits
     lits = ['0', '32767', '32768', '-32768', '-32769', '65535', '65536', '2147483647',
             '2147483648', '-2147483648', '-2147483649', '4294967296', '9999999999999999999999',
@@ -484,7 +657,7 @@ def expressions():
            ('lineno-big', '99999999999 x = 1\nGOTO 99999999999'), ('lineno-0', '0 x = 1\nGOTO 0'),
            ('lineno-neg', 'GOTO -1'), ('lineno-float', 'GOTO 1.5'), ('goto-string', 'GOTO "a"')]
     for n, s in lab:
-        out.append({'fam': 'expr', 'cls': f'labels/{n}', 'src': PRE + s + POST})
+        out.append({'fam': 'expr', 'cls': f'labels/{n}', 'src': wrap('', s, '')})
         out.append({'fam': 'expr', 'cls': f'labels-bare/{n}', 'src': s})
     # LOCATE / COLOR / SCREEN / WIDTH / VIEW PRINT with 0..6 arguments, some left out (D09)
     for kw in ('LOCATE', 'COLOR', 'SCREEN', 'WIDTH', 'VIEW PRINT', 'POKE', 'SOUND', 'BSAVE', 'BLOAD',
